@@ -34,6 +34,9 @@ EXPLANATION = (
     ' and calls on a local bound once to a constructor result are resolved to that class (tokens ='
     ' SVGLexicalParser(); tokens.parse(...)), with `isinstance(parameter, str)` decided false in the callee'
     ' when the call site passes such an instance.'
+    ' R10.5 also balances the nesting counters of SVG.parse (locals incremented in the start branch of a tag'
+    " and decremented at its end event: inside-a-use, inside-a-clipPath): every path through the tag's start"
+    ' branch that stays in the loop - the skip paths too - increments exactly once.'
 )
 TECHNIQUE = (
     "static analysis (no execution): exception-escape analysis from every element construction site (may-raise sets propagated over the call graph, subtracted at handlers); recursion guard check; push/pop path counting; result-is-root"
@@ -296,6 +299,38 @@ def balanced(ctx):
     bad = [(k, c) for k, c in q if k in ("fall", "continue") and c != 1]
     ctx.ob("R10.5", "SVG.parse[end: one pop on every path, also the skip paths]", not bad, "paths (exit, pops): %s" % q, end[0].lineno,
            "an end event that leaves without popping makes every later sibling a child of the faulty element's parent chain")
+
+
+    # nesting counters (inside a use expansion / inside a clipPath): incremented in the start branch of a tag, decremented at its
+    # end event.  The end event of a skipped element still runs, so every path through the tag's start branch that stays in
+    # the loop - the skip paths too - must have incremented exactly once.
+    def augs(stmts, op):
+        out = {}
+        for st in stmts:
+            for n in ast.walk(st):
+                if isinstance(n, ast.AugAssign) and isinstance(n.op, op) and isinstance(n.target, ast.Name) and isinstance(n.value, ast.Constant) and n.value.value == 1:
+                    out.setdefault(n.target.id, []).append(n)
+        return out
+
+    incs, decs = augs(start, ast.Add), augs(end, ast.Sub)
+    counters = sorted(set(incs) & set(decs))
+    ctx.need(counters, "R10.5", "nesting counters of SVG.parse not found")
+    for cname_ in counters:
+        inc = incs[cname_][0]
+        # the innermost branch body of the start chain that holds the increment
+        holder = None
+        for node in ast.walk(ast.Module(body=start, type_ignores=[])):
+            if isinstance(node, ast.If):
+                for test, body in if_chain(node):
+                    if test is not None and any(isinstance(x, ast.Name) and x.id == "tag" for x in ast.walk(test)) and any(inc is m_ for b in body for m_ in ast.walk(b)):
+                        if holder is None or len(ast.unparse(ast.Module(body=body, type_ignores=[]))) < len(ast.unparse(ast.Module(body=holder, type_ignores=[]))):
+                            holder = body
+        ctx.need(holder is not None, "R10.5", "start branch of counter %s not found" % cname_)
+        is_inc = lambda s_, nm=cname_: isinstance(s_, ast.AugAssign) and isinstance(s_.target, ast.Name) and s_.target.id == nm and isinstance(s_.op, ast.Add)
+        paths = exits(holder, is_inc)
+        bad = [(k, c) for k, c in paths if k in ("fall", "continue") and c != 1]
+        ctx.ob("R10.5", "SVG.parse[counter %s: one increment on every path of its start branch, also the skip paths]" % cname_, not bad, "paths (exit, increments): %s" % paths, inc.lineno,
+               "the end event of a skipped element still decrements: the counter goes negative and every later `%s == 0` test fails - ids of later siblings are no longer registered" % cname_)
 
 
 # --------------------------------------------------------------------------- R10.6
